@@ -8,10 +8,18 @@
 //        after the script the client reads until it has a complete response or EOF (at most body time-out + 2.5 s)
 //     -> W codes=<status codes received, in order, '-' if none> closed=<1 if the server closed the connection>
 //            handler=<times the handler ran>
+//   Y <header timeout ms> <body timeout ms> <answer delay ms>
+//        one complete request whose handler answers from a thread of its own after the delay
+//     -> Y codes=<status codes received in order> closed=<1 if the server closed the connection before/without the answer>
+//   Z <max request size> <segment hex>,<segment hex>,...
+//        a live endpoint with that maximum request size (time-outs 1500 ms); the client sends the segments 40 ms apart (separate
+//        reads), then reads for 400 ms
+//     -> Z codes=<status codes received in order, '-' if none> handler=<times the handler ran> seen=<resource:body length of each call>
 #include <pistache/endpoint.h>
 #include <pistache/http.h>
 
 #include <atomic>
+#include <mutex>
 #include <chrono>
 #include <thread>
 
@@ -22,6 +30,8 @@ using namespace Pistache;
 
 namespace {
 std::atomic<int> g_handled { 0 };
+std::mutex g_seen_m;
+std::string g_seen;
 
 class Echo : public Http::Handler
 {
@@ -30,6 +40,21 @@ public:
     void onRequest(const Http::Request& req, Http::ResponseWriter response) override
     {
         ++g_handled;
+        if (req.resource().rfind("/slow/", 0) == 0)
+        {
+            // the answer comes later, from another thread (ResponseWriter is movable for that purpose)
+            int ms  = atoi(req.resource().c_str() + 6);
+            auto rw = std::make_shared<Http::ResponseWriter>(std::move(response));
+            std::thread([rw, ms] {
+                std::this_thread::sleep_for(std::chrono::milliseconds(ms));
+                rw->send(Http::Code::Ok, "late");
+            }).detach();
+            return;
+        }
+        {
+            std::lock_guard<std::mutex> g(g_seen_m);
+            g_seen += (g_seen.empty() ? "" : ",") + req.resource() + ":" + std::to_string(req.body().size());
+        }
         response.send(Http::Code::Ok, "ok " + req.body());
     }
 };
@@ -54,9 +79,132 @@ std::vector<int> take_responses(std::string& buf)
 }
 } // namespace
 
+static std::string size_case(const std::vector<std::string>& t)
+{
+    g_handled = 0;
+    {
+        std::lock_guard<std::mutex> g(g_seen_m);
+        g_seen.clear();
+    }
+    Http::Endpoint ep(Address("127.0.0.1", Port(0)));
+    ep.init(Http::Endpoint::options()
+                .threads(1)
+                .flags(Flags<Tcp::Options>(Tcp::Options::ReuseAddr))
+                .maxRequestSize(static_cast<size_t>(atoll(t[1].c_str())))
+                .headerTimeout(std::chrono::milliseconds(1500))
+                .bodyTimeout(std::chrono::milliseconds(1500)));
+    ep.setHandler(std::make_shared<Echo>());
+    ep.serveThreaded();
+    int fd = pv::connect_loopback(ep.getPort());
+    std::string buf;
+    std::vector<int> codes;
+    bool closed = false;
+    auto drain  = [&](int ms) {
+        pollfd p = { fd, POLLIN, 0 };
+        auto end = std::chrono::steady_clock::now() + std::chrono::milliseconds(ms);
+        while (!closed)
+        {
+            auto left = std::chrono::duration_cast<std::chrono::milliseconds>(end - std::chrono::steady_clock::now()).count();
+            if (left <= 0)
+                break;
+            if (::poll(&p, 1, static_cast<int>(left)) <= 0)
+                break;
+            char tmp[4096];
+            ssize_t n = ::recv(fd, tmp, sizeof tmp, 0);
+            if (n <= 0)
+            {
+                closed = true;
+                break;
+            }
+            buf.append(tmp, static_cast<size_t>(n));
+            for (int c : take_responses(buf))
+                codes.push_back(c);
+        }
+    };
+    std::string cur;
+    for (char ch : t[2] + ",")
+    {
+        if (ch != ',')
+        {
+            cur.push_back(ch);
+            continue;
+        }
+        if (!cur.empty() && !closed)
+        {
+            pv::send_all(fd, pv::unhex(cur));
+            drain(40);
+        }
+        cur.clear();
+    }
+    drain(400);
+    ::close(fd);
+    ep.shutdown();
+    std::ostringstream os;
+    os << "Z codes=";
+    for (size_t i = 0; i < codes.size(); ++i)
+        os << (i ? "," : "") << codes[i];
+    if (codes.empty())
+        os << "-";
+    std::lock_guard<std::mutex> g(g_seen_m);
+    os << " handler=" << g_handled.load() << " seen=" << (g_seen.empty() ? "-" : g_seen);
+    return os.str();
+}
+
+static std::string slow_case(const std::vector<std::string>& t)
+{
+    int hT = atoi(t[1].c_str()), bT = atoi(t[2].c_str()), delay = atoi(t[3].c_str());
+    Http::Endpoint ep(Address("127.0.0.1", Port(0)));
+    ep.init(Http::Endpoint::options()
+                .threads(1)
+                .flags(Flags<Tcp::Options>(Tcp::Options::ReuseAddr))
+                .headerTimeout(std::chrono::milliseconds(hT))
+                .bodyTimeout(std::chrono::milliseconds(bT)));
+    ep.setHandler(std::make_shared<Echo>());
+    ep.serveThreaded();
+    int fd = pv::connect_loopback(ep.getPort());
+    pv::send_all(fd, "GET /slow/" + std::to_string(delay) + " HTTP/1.1\r\nHost: a\r\n\r\n");
+    std::string buf;
+    std::vector<int> codes;
+    bool closed = false;
+    auto end    = std::chrono::steady_clock::now() + std::chrono::milliseconds(delay + 1200);
+    while (!closed && std::chrono::steady_clock::now() < end)
+    {
+        pollfd p = { fd, POLLIN, 0 };
+        if (::poll(&p, 1, 50) <= 0)
+            continue;
+        char tmp[4096];
+        ssize_t n = ::recv(fd, tmp, sizeof tmp, 0);
+        if (n <= 0)
+        {
+            closed = true;
+            break;
+        }
+        buf.append(tmp, static_cast<size_t>(n));
+        for (int c : take_responses(buf))
+            codes.push_back(c);
+        if (!codes.empty() && codes.back() == 200)
+            break;
+    }
+    ::close(fd);
+    std::this_thread::sleep_for(std::chrono::milliseconds(100));
+    ep.shutdown();
+    std::ostringstream os;
+    os << "Y codes=";
+    for (size_t i = 0; i < codes.size(); ++i)
+        os << (i ? "," : "") << codes[i];
+    if (codes.empty())
+        os << "-";
+    os << " closed=" << (closed ? 1 : 0);
+    return os.str();
+}
+
 static std::string handle(const std::string& line)
 {
     auto t = pv::split(line);
+    if (t.size() == 4 && t[0] == "Y")
+        return slow_case(t);
+    if (t.size() == 3 && t[0] == "Z")
+        return size_case(t);
     if (t.size() < 4 || t[0] != "W")
         return "BADCASE";
     int hT = atoi(t[1].c_str()), bT = atoi(t[2].c_str());
